@@ -169,6 +169,13 @@ def run(tier):
     ck.notes["routes_observed"] = routes
     rej = ck.validate("Trace_GBFactorize", traces, TRACE_CFG, "traces", nontrivial=nontrivial)
     ck.judge(rej, None, {})
+    # several keys with tens of thousands of labels each: the mixed-radix weights cross 2^31 (46341^2) and 2^32 (65536^2)
+    scaled = [dict(L=L, nkeys=nk, target=tg) for L in ([46341, 65536] if tier == "quick" else [46340, 46341, 65535, 65536, 70000])
+              for nk, tg in ((3, "f2d"), (3, "gb")) + ((() if tier == "quick" else ((4, "f2d"),)))]
+    ts = ck.drive(factorize.run_scaled_multikey, scaled, warm_cases=[], procs=4)
+    ck.notes["scaled_multikey_probes"] = [[t["L"], t["nkeys"], t["target"], t.get("ngroups")] for t in ts]
+    rej = ck.validate("Trace_GBFactorize", ts, TRACE_CFG, "scaled_multikey", nontrivial=lambda t: True, key=lambda t: json.dumps([t["L"], t["nkeys"], t["target"]]))
+    ck.judge(rej, None, {})
     ck.assumptions += ["label/code projection (gbverif/drivers/factorize.py) trusted; raw chunked codes are read through the private pointer tables, "
                        "the 'groups' view uses public attributes only"]
     return ck.finish()
